@@ -23,7 +23,9 @@ RULE = (
     "capitalize, strip family, slicing, split, rpartition, iteration, to_liquid_string of every value kind, quote_plus, escapejs) "
     "on all safe/unsafe operand combinations vs the model combinators, exact results; stream filter-pairs: every ordered pair "
     "of modelled filter variants on fixed special-rich inputs (exhaustive); stream filter-taint: random chains of 1-4 filters "
-    "(incl. ternaries) with literal/variable/integer arguments; stream render: templates over output/echo/assign/capture/cycle/"
+    "(incl. ternaries) whose every argument position is a clean literal, an integer, nil, or a variable holding a str, Markup, list, "
+    "dict, float, list with non-string items, int, bool, nil, __html__ object or nothing (special-rich contents); filter-pairs includes "
+    "variants with a list/dict/mixed-list/float/int variable as argument; stream render: templates over output/echo/assign/capture/cycle/"
     "for/if/unless/elsif/case/liquid/include/render/translate; stream safe-values: Markup and __html__ objects through "
     "output/assign/for/first/last/default/cycle/include. Every case renders with autoescape on and off. Non-trivial: the render "
     "data reaching the expression contain at least one of < > ' \" & and the render succeeded (or, for escape/markup, an operand "
@@ -41,7 +43,9 @@ TRUSTED_BASE = [
     "of the model; every theorem quantifies over all of them; the driver is given the values the real functions returned",
 ]
 ASSUMPTIONS = [
-    "data values are str, Markup, int, None, bool, flat lists of str/Markup, or objects with __html__; dicts/drops/nested lists are not modelled",
+    "data values are str, Markup, int, None, bool, flat lists of str/Markup, or objects with __html__; a dict, float or list with non-string "
+    "items is modelled through its str() only (value kind `other`): as an argument a filter stringifies, as the left value of a string "
+    "filter or of join, and when written; anywhere else the case is compared by the direct oracle only (tag outside-model)",
     "templates are finite trees: include/render are modelled with the partial inlined (every terminating render unrolls to one)",
     "case conversions are modelled on ASCII; Python's Unicode case mapping never produces < > ' \" (not proved)",
     "translations are the null translations (message text = template text); a real catalogue is trusted template text",
@@ -116,7 +120,27 @@ def py_val(j):
         return int(j["n"])
     if "h" in j:
         return _HtmlObj(j["h"], j["t"])
+    if "d" in j:
+        return _mk_other(j["d"])
     raise ValueError(j)
+
+
+def _mk_other(d):
+    """a dict, float or list with non-string items taken from the render data (JSON -> a fresh Python object)"""
+    import copy
+
+    return copy.deepcopy(d)
+
+
+def is_other(x):
+    return isinstance(x, (dict, float)) or (isinstance(x, (list, tuple)) and not all(isinstance(i, str) for i in x))
+
+
+def model_val(j):
+    """value JSON as the driver reads it: a `{"d": obj}` value travels as `{"x": str(obj)}` (only its str() is modelled)"""
+    if isinstance(j, dict) and "d" in j:
+        return {"x": str(_mk_other(j["d"]))}
+    return j
 
 
 class _HtmlObj:
@@ -148,6 +172,8 @@ def val_json(v):
         return {"n": str(v)}
     if isinstance(v, _HtmlObj):
         return {"h": v.h, "t": v.t}
+    if isinstance(v, (dict, float)):
+        return {"x": str(v)}
     if isinstance(v, (list, tuple)):
         items = [val_json(x) for x in v]
         if all(isinstance(x, dict) and "s" in x for x in items):
@@ -170,6 +196,8 @@ def canon_val(j):
         return {"k": "num", "n": j["n"]}
     if "h" in j:
         return {"k": "obj"}
+    if "x" in j:
+        return {"k": "other", "sk": j["x"] if EXACT else skeleton(j["x"])}
     return j
 
 
@@ -184,6 +212,8 @@ def data_strings(data):
             elif "h" in v:
                 yield v["h"], True
                 yield v["t"], False
+            elif "d" in v:
+                yield str(_mk_other(v["d"])), False
 
 
 # ---- surface syntax ---------------------------------------------------------------------------------------------------
@@ -476,6 +506,10 @@ STRING_FILTERS = {
     "truncate", "truncatewords", "url_encode", "url_decode", "base64_encode", "base64_decode", "base64_url_safe_encode",
     "base64_url_safe_decode", "squish", "safe", "escapejs",
 }
+# argument positions that a filter only stringifies (`str(arg)` / `soft_str(arg)`): there a dict, float or mixed list from the
+# render data is inside the model (value kind `other`)
+STR_ARG_POS = {"append": (0,), "prepend": (0,), "remove": (0,), "remove_first": (0,), "remove_last": (0,), "replace": (0, 1),
+               "replace_first": (0, 1), "replace_last": (0, 1), "split": (0,), "truncate": (1,), "truncatewords": (1,), "join": (0,)}
 MODELLED = STRING_FILTERS | {"slice", "join", "first", "last", "reverse", "concat", "size", "default"}
 B64 = {"base64_encode": 0, "base64_decode": 1, "base64_url_safe_encode": 2, "base64_url_safe_decode": 3}
 
@@ -538,19 +572,25 @@ def _build_env(auto):
             rec = _REC["cur"]
             # `replace: '', x` multiplies lengths; a chain of them grows exponentially. Such cases are cut short here
             # (reported as an error outcome, outside the model) instead of grinding through megabytes of text.
-            if any(isinstance(x, str) and len(x) > 3000 for x in (val,) + a):
+            lens = [len(x) for x in (val,) + a if isinstance(x, str)]
+            if lens and (max(lens) > 2000 or (len(lens) > 1 and max(lens) * sorted(lens)[-2] > 50000)):
                 rec["outside"].append("value-too-long")
                 raise _TooLong()
             if name in ("join", "reverse", "concat") and (val is None or isinstance(val, (bool, _HtmlObj))):
                 rec["outside"].append(name + ":" + type(val).__name__)
-            for x in (val,) + a:
-                if isinstance(x, (list, tuple)):
-                    if not all(isinstance(i, str) for i in x):
-                        rec["outside"].append(name + ":mixed-list")
-                    else:
-                        rec["liststr"].append([val_json(x)["a"], str(x)])
-                elif isinstance(x, (dict, float)) or name not in MODELLED:
-                    rec["outside"].append(name + ":" + type(x).__name__)
+            if name not in MODELLED:
+                rec["outside"].append(name + ":unmodelled-filter")
+            for pos, x in enumerate((val,) + a):
+                if is_other(x):
+                    # only its str() is modelled: fine as the left value of a string filter (or of join, for a dict/float) and
+                    # in the argument positions a filter stringifies — and only for objects that came from the render data
+                    ok = id(x) in rec["data_ids"] and (
+                        (pos == 0 and (name in STRING_FILTERS or (name == "join" and isinstance(x, (dict, float)))))
+                        or (pos > 0 and (pos - 1) in STR_ARG_POS.get(name, ())))
+                    if not ok:
+                        rec["outside"].append(name + ":" + type(x).__name__)
+                elif isinstance(x, (list, tuple)):
+                    rec["liststr"].append([val_json(x)["a"], str(x)])
             if name in STRING_FILTERS:
                 s = _coerce(val)
                 if name == "escape_once":
@@ -585,6 +625,8 @@ def _build_env(auto):
         rec = _REC["cur"]
         if isinstance(val, (list, tuple)) and not all(isinstance(i, str) for i in val):
             rec["outside"].append("result:mixed-list")
+        if isinstance(val, (dict, float)) and id(val) not in rec["data_ids"]:
+            rec["outside"].append("result:" + type(val).__name__)
         rec["probe"] = val
         return val
 
@@ -593,7 +635,7 @@ def _build_env(auto):
 
 
 def new_rec():
-    return {"unescape": [], "strip": [], "unquote": [], "b64": [], "liststr": [], "breakers": [], "probe": None, "outside": []}
+    return {"unescape": [], "strip": [], "unquote": [], "b64": [], "liststr": [], "breakers": [], "probe": None, "outside": [], "data_ids": set()}
 
 
 def run_template(src, partials, data, auto):
@@ -606,7 +648,9 @@ def run_template(src, partials, data, auto):
         with warnings.catch_warnings():
             warnings.simplefilter("ignore")
             env = make_env(auto, partials, rec)
-            out = env.from_string(src).render(**{k: py_val(v) for k, v in data.items()})
+            pydata = {k: py_val(v) for k, v in data.items()}
+            rec["data_ids"] = {id(v) for v in pydata.values() if is_other(v)}
+            out = env.from_string(src).render(**pydata)
         return {"ok": out}, rec
     except LiquidError as e:
         return {"err": "error", "cls": type(e).__name__, "liquid": True}, rec
@@ -619,7 +663,7 @@ def prims_of(rec):
 
 
 def data_list(data):
-    return [[k, v] for k, v in sorted(data.items())]
+    return [[k, model_val(v)] for k, v in sorted(data.items())]
 
 
 def scan(out: str):
@@ -709,10 +753,17 @@ def gen_data(rng, clean=False, dirty_markup=False):
         d["o"] = {"h": rng.choice(CLEAN_LITS) if not dirty_markup else gen_str(rng), "t": g(rng)}
     if rng.chance(20):
         d["t"] = True
+    # non-string values that a filter may receive as an *argument*: dict, float, list with non-string items
+    if rng.chance(70):
+        d["dct"] = {"d": {g(rng) or "k": g(rng), "n": 1} if rng.chance(70) else {g(rng): [g(rng)]}}
+    if rng.chance(50):
+        d["flt"] = {"d": rng.choice([1.5, -0.25, 2.0, 1e21])}
+    if rng.chance(60):
+        d["mx"] = {"d": [g(rng), rng.choice([1, None, True, 2.5]), g(rng)][: rng.range(2, 3)]}
     return d
 
 
-def gen_arg(rng, want="str"):
+def gen_arg(rng, want="str", rich=False):
     k = rng.below(100)
     if want == "int":
         if k < 75:
@@ -724,14 +775,17 @@ def gen_arg(rng, want="str"):
         return {"var": rng.choice(["x", "nosuch", "nn"])}
     if want == "arr":
         return {"var": "arr"} if k < 85 else {"var": rng.choice(["x", "nosuch"])}
-    if k < 38:
+    if k < 36:
         return {"var": rng.choice(STR_VARS + ["m"])}
-    if k < 88:
+    if k < 80:
         return {"lit": rng.choice(CLEAN_LITS)}
-    if k < 92:
+    if k < 84:
         return {"int": rng.choice(INTS)}
-    if k < 95:
-        return {"var": rng.choice(["nosuch", "nn", "arr", "n", "o"])}
+    if k < 97 and rich:
+        # every argument position can also be a variable holding a list, dict, number, bool, nil or an __html__ object
+        return {"var": rng.choice(["arr", "arr", "dct", "dct", "flt", "mx", "n", "t", "nn", "o", "nosuch"])}
+    if k < 97:
+        return {"var": rng.choice(["nosuch", "nn", "n", "o"])}
     return None
 
 
@@ -769,7 +823,7 @@ def gen_fcall(rng, ty, allow_html=False):
     n = len(kinds) - (rng.below(opt + 1) if opt else 0)
     if rng.chance(1):
         n = max(0, n + rng.choice([-1, 1]))
-    args = [gen_arg(rng, kinds[i] if i < len(kinds) else "str") for i in range(n)]
+    args = [gen_arg(rng, kinds[i] if i < len(kinds) else "str", rich=True) for i in range(n)]
     return [name, args], (ty if out == "same" else out)
 
 
@@ -793,11 +847,16 @@ def gen_head(rng):
         return {"var": "m"}
     if k < 91:
         return {"var": "o"}
-    if k < 94:
+    if k < 93:
         return {"var": rng.choice(["nosuch", "nn", "n", "t"])}
+    if k < 95:
+        return {"var": rng.choice(["dct", "flt"])}
     if k < 97:
         return {"int": rng.choice(INTS)}
     return None
+
+
+OTHER_VARS = ("dct", "flt", "mx")
 
 
 def gen_chain(rng, maxlen=4, allow_html=False, minlen=0):
@@ -869,7 +928,13 @@ class TplGen:
         if k < 30:
             return ["output", self.expr()]
         if k < 40:
-            return ["assign", r.choice(STR_VARS + ["v1", "arr"] if r.chance(80) else ["m"]), self.expr()]
+            e = self.expr()
+            # a dict/float is only modelled through its str(): it may be written or filtered, never stored and then looped
+            # over or tested
+            for ch in (e, e.get("alt") or {}):
+                if isinstance(ch.get("h"), dict) and ch["h"].get("var") in OTHER_VARS and not ch.get("f"):
+                    ch["h"] = {"var": "x"}
+            return ["assign", r.choice(STR_VARS + ["v1", "arr"] if r.chance(80) else ["m"]), e]
         if k < 48:
             return ["capture", r.choice(["c1", "c2", "x"]), self.block(depth + 1, line)]
         if k < 54:
@@ -1191,6 +1256,8 @@ def _variants():
         ["base64_url_safe_encode", []], ["base64_url_safe_decode", []], ["squish", []], ["escapejs", []], ["join", []], ["join", [L(",")]],
         ["join", [V("y")]], ["first", []], ["last", []], ["reverse", []], ["concat", [V("arr")]], ["size", []], ["default", [V("y")]],
         ["default", [L("d")]],
+        ["join", [V("arr")]], ["join", [V("dct")]], ["append", [V("dct")]], ["prepend", [V("mx")]], ["replace", [V("arr"), V("dct")]],
+        ["split", [V("flt")]], ["truncate", [I(2), V("dct")]], ["remove", [V("n")]],
     ]
 
 
@@ -1209,6 +1276,8 @@ class FilterPairsStream(FilterTaintStream):
         ]
         if ctx.tier == "thorough":
             inputs.append({"x": {"s": "&lt;script&gt;", "m": True}, "y": {"s": "\"", "m": False}, "arr": {"a": []}})
+        for d in inputs:
+            d.update({"dct": {"d": {"<k>": "&'v\""}}, "mx": {"d": ["<i>", 1, None]}, "flt": {"d": 1.5}, "n": {"n": "7"}})
         out = []
         for d in inputs:
             for f in vs:
@@ -1307,7 +1376,16 @@ class RenderOffStream(RenderStream):
         for i in range(ctx.scale(500, 5000)):
             r = rng.fork(str(i))
             g = TplGen(r, allow_html=r.chance(5))
-            out.append({"nodes": g.block(0), "data": gen_data(r, clean=r.chance(50), dirty_markup=False)})
+            data = gen_data(r, clean=r.chance(50), dirty_markup=False)
+            # with autoescape off the engine is not meant to be handed Markup values (html.escape(Markup) stays a Markup and
+            # then escapes what is added to it): outside the property and outside the `auto = false` model
+            for v in data.values():
+                if isinstance(v, dict) and "s" in v:
+                    v["m"] = False
+                elif isinstance(v, dict) and "a" in v:
+                    for x in v["a"]:
+                        x["m"] = False
+            out.append({"nodes": g.block(0), "data": data})
         return out
 
     def line_obs(self, case, obs):
